@@ -179,14 +179,24 @@ func getMinIntType(
 	)
 
 	// The normalized bounds may point at the schema's own numbers, which the
-	// validators read later: adjust copies, never the originals.
-	if nExclusiveMin && nMin != nil {
-		adjusted := *nMin + 1.0
+	// validators read later: adjust copies, never the originals. The type must
+	// hold exactly the integers the bounds admit, i.e. [ceil(min), floor(max)],
+	// moved inwards by one when an excluded bound is itself an integer.
+	if nMin != nil {
+		adjusted := math.Ceil(*nMin)
+		if nExclusiveMin && adjusted == *nMin {
+			adjusted += 1.0
+		}
+
 		nMin = &adjusted
 	}
 
-	if nExclusiveMax && nMax != nil {
-		adjusted := *nMax - 1.0
+	if nMax != nil {
+		adjusted := math.Floor(*nMax)
+		if nExclusiveMax && adjusted == *nMax {
+			adjusted -= 1.0
+		}
+
 		nMax = &adjusted
 	}
 
